@@ -34,7 +34,7 @@ from vlib.sparsestub import patched_scipy
 from vlib.framework import Run, proved, violated, undecided, held
 from checks.c10 import p1_vertex_spec, DI as DI10
 
-DI = dict(DI10, two_tets_face=[1, 1, 1, 3, 2, 2, 2], cube12=[1, 1, 2, 2, 3, 3, 1, 1, 2, 2, 3, 3], torus33=[1 + (i % 3 == 0) for i in range(18)], screen3=[1 + (i % 5 in (0, 1)) + (i > 12) for i in range(18)])
+DI = dict(DI10, **{"octa+tetra": [1] * 8 + [2] * 4}, two_tets_face=[1, 1, 1, 3, 2, 2, 2], cube12=[1, 1, 2, 2, 3, 3, 1, 1, 2, 2, 3, 3], torus33=[1 + (i % 3 == 0) for i in range(18)], screen3=[1 + (i % 5 in (0, 1)) + (i > 12) for i in range(18)])
 
 
 def _grid(mesh, perturb=None):
@@ -250,12 +250,14 @@ def ob_partition_dual(mesh, degree, thorough):
 # ---- BC / RBC conformity on the barycentric grid (numeric) ---------------------------------------------------------------
 
 
-def replay_bc(mesh, kind, seed, sub=None):
+def replay_bc(mesh, kind, seed, sub=None, swapped=None):
     import bempp_cl.api as api
 
     warnings.simplefilter("ignore")
     grid = _grid(mesh, seed)
     kw = {} if sub is None else {"support_elements": np.array(sub, dtype="uint32")}
+    if swapped is not None:
+        kw["swapped_normals"] = list(swapped)
     sp = api.function_space(grid, kind, 0, **kw)
     bary = sp.grid
     T = BC.dense(sp.dof_transformation)
@@ -290,13 +292,13 @@ def replay_bc(mesh, kind, seed, sub=None):
     return {"violates": worst > 1e-11, "max_jump": worst, "where": where, "dofs": int(T.shape[1])}
 
 
-def ob_bc(mesh, kind, seed, sub=None):
-    r = replay_bc(mesh, kind, seed, sub)
+def ob_bc(mesh, kind, seed, sub=None, swapped=None):
+    r = replay_bc(mesh, kind, seed, sub, swapped)
     if r["violates"]:
         return violated("%s on %s (perturbation seed %d, support %s): %s component of basis function %d jumps by %.3g across barycentric edge %d"
                         % (kind, mesh, seed, sub, "normal" if kind == "BC" else "tangential", r["where"]["dof"], r["max_jump"], r["where"]["barycentric_edge"]),
                         witness=r["where"], signature="bc-conformity/%s" % kind,
-                        replay={"callable": "checks.c09:replay_bc", "kwargs": {"mesh": mesh, "kind": kind, "seed": seed, "sub": sub}, "confirmed": True})
+                        replay={"callable": "checks.c09:replay_bc", "kwargs": {"mesh": mesh, "kind": kind, "seed": seed, "sub": sub, "swapped": swapped}, "confirmed": True})
     return held("max jump %.1e over all interior barycentric edges, %d basis functions" % (r["max_jump"], r["dofs"]))
 
 
@@ -557,7 +559,8 @@ def main():
             # multitrace-like grid (two tetrahedra sharing face 3, junction edges with three faces): the two closed sub-surfaces and the shared face
             ("two_tets_face", ("RWG", 0, {"segments": [1, 3]})), ("two_tets_face", ("RWG", 0, {"segments": [2, 3]})), ("two_tets_face", ("SNC", 0, {"segments": [2, 3], "swapped_normals": [3]})),
             ("two_tets_face", ("RWG", 0, {"segments": [2, 3], "swapped_normals": [3]})), ("two_tets_face", ("P", 1, {"segments": [2, 3], "include_boundary_dofs": True})),
-            ("two_tets_face", ("RWG", 0, {"segments": [2], "include_boundary_dofs": True}))]
+            ("two_tets_face", ("RWG", 0, {"segments": [2], "include_boundary_dofs": True})),
+            ("octa+tetra", ("SNC", 0, {"swapped_normals": [2]})), ("octa+tetra", ("RWG", 0, {"swapped_normals": [2]}))]
     if thorough:
         conf += [("octa", ("P", 1, {})), ("octa", ("RWG", 0, {})), ("octa", ("SNC", 0, {})), ("octa", ("P", 1, {"segments": [2], "include_boundary_dofs": True, "truncate_at_segment_edge": False}))]
     for mesh, spec in conf:
@@ -574,6 +577,10 @@ def main():
                 run.add("bc-conformity[%s %s seed=%d]" % (mesh, kind, seed), "bounded", ob_bc, mesh, kind, seed)
     for kind in ("BC", "RBC"):
         run.add("bc-conformity[two tetrahedra sharing a face, closed segment, %s]" % kind, "bounded", ob_bc, "two_tets_face", kind, 4, [0, 1, 2, 3])
+    for kind in ("BC", "RBC"):
+        # two closed components, normals swapped on one of them (the documented use: an inner surface inside an outer one) and on both
+        for sw in ([2], [1, 2]):
+            run.add("bc-conformity[octa+tetra %s swapped_normals=%s]" % (kind, sw), "bounded", ob_bc, "octa+tetra", kind, 5, None, sw)
     run.add("bc-conformity[octa BC segment]", "bounded", ob_bc, "octa", "BC", 3, [0, 1, 2, 3])
     run.add("bc-conformity[octa RBC segment]", "bounded", ob_bc, "octa", "RBC", 3, [0, 1, 2, 3])
     for mesh in ["tetra", "octa", "screen2", "fan3", "torus33", "two_tets_face"] + (["cube12", "screen3"] if thorough else []):
